@@ -122,6 +122,10 @@ def _alt_set(seq, sigma, start_only=False):
     return [(c, s or start_only) for c, s in r]
 
 
+class MultiCharPattern(AnalysisError):
+    pass
+
+
 def sub_pattern_chars(pattern, sigma=SIGMA):
     """For a substitution pattern made of optional (possibly-empty) prefix
     groups followed by exactly one single-character matcher (a literal, a
@@ -129,11 +133,22 @@ def sub_pattern_chars(pattern, sigma=SIGMA):
     return (anywhere, start_only, group_index_of_char) -- the sets of
     characters the pattern consumes. Raises AnalysisError for other shapes."""
     p = parse(pattern)
-    consuming = [(op, av) for op, av in p if not _can_be_empty(op, av)]
+    seq = list(p)
+    consuming = [(op, av) for op, av in seq if not _can_be_empty(op, av)]
     if len(consuming) != 1:
         raise AnalysisError(
             'substitution pattern {!r} is not of the shape '
             '<optional prefix><one character>'.format(pattern))
+    # nothing that can consume input may follow the single character: a
+    # pattern such as `\\$\\$?` swallows a second metacharacter and so does
+    # not escape every occurrence
+    idx = [i for i, (op, av) in enumerate(seq)
+           if (op, av) is consuming[0] or (op, av) == consuming[0]][0]
+    for op, av in seq[idx + 1:]:
+        if op not in (sre_c.AT, sre_c.ASSERT, sre_c.ASSERT_NOT):
+            raise MultiCharPattern(
+                'substitution pattern {!r} can consume more than one '
+                'character per match'.format(pattern))
     op, av = consuming[0]
     grp = None
     if op is sre_c.SUBPATTERN:
@@ -207,8 +222,14 @@ def search_alternative_chars(pattern, sigma=SIGMA):
     if len(p) == 1 and p[0][0] is sre_c.BRANCH:
         alts = [list(a) for a in p[0][1][1]]
     anywhere, at_end = set(), set()
+    at_start = set()
     for alt in alts:
         end = False
+        start = False
+        if alt and alt[0][0] is sre_c.AT and str(alt[0][1]).endswith(
+                'AT_BEGINNING'):
+            start = True
+            alt = alt[1:]
         if alt and alt[-1][0] is sre_c.AT and str(alt[-1][1]).endswith(
                 'AT_END'):
             end = True
@@ -220,5 +241,6 @@ def search_alternative_chars(pattern, sigma=SIGMA):
         if ch is None:
             raise AnalysisError('pattern {!r}: alternative is not a single '
                                 'character'.format(pattern))
-        (at_end if end else anywhere).update(ch)
+        (at_end if end else (at_start if start else anywhere)).update(ch)
+    search_alternative_chars.last_start = at_start - anywhere
     return anywhere, at_end - anywhere
